@@ -13,7 +13,7 @@ hypotheses (`'/' ∉ name` is what makes `#/components/schemas/<name>` a JSON po
 
 | clause of the statement                         | `emit.openapi`                 | `openapi_bulk` on `gen_routes` output                       |
 |-------------------------------------------------|--------------------------------|-------------------------------------------------------------|
-| every `$ref` resolves                           | `refs_closed` (full)           | `bulk_closed` (partial: key hypothesis), `bulk_full_false`, `bulk_key_not_closed`, `bulk_key_collision` (negations) |
+| every `$ref` resolves                           | `refs_closed` (full)           | `bulk_closed`, `bulk_src_closed` (partial: key hypothesis), `models_with_base_are_discovered`; `bulk_full_false`, `bulk_key_not_closed`, `bulk_key_collision`, `bulk_key_collision_lost` (negations) |
 | every request body referenced is defined        | `request_bodies_defined` (full)| part of `bulk_closed`; `body_key_is_name`                   |
 | operations = requested                          | `ops_exact` (full)             | `bulk_ops_exact`, `bulk_ops_exact_any_layout` (any spread over files / upsert batches); `pinned_appended_batch_lost` (the repaired defect) |
 | template parameters declared                    | `params_declared` (full)       | `bulk_params_declared`                                      |
@@ -183,6 +183,58 @@ theorem bulk_key_collision :
         (match getPath doc [c!"components", c!"schemas", c!"Foo"] with
          | some v => v.beq (.obj [(c!"description", .str c!"Lower-case class.")])
          | none => false)) = true := by decide
+
+/-- **Negation on a witness (known finding C16-bulk-key-collision-lost; same root cause, third symptom).**  Tables
+    `config` and `config_tbl` derive the same key `Config`: `components.schemas` holds one entry for the two models and
+    it is the later one's — the first model is described by no schema of the document. -/
+theorem bulk_key_collision_lost :
+    bulkKey c!"config" = bulkKey c!"config_tbl" ∧
+    okAnd (bulk c!"rest_api" [⟨c!"config", [(c!"description", .str c!"first")]⟩, ⟨c!"config_tbl", [(c!"description", .str c!"second")]⟩] [])
+      (fun doc => match getPath doc [c!"components", c!"schemas"] with
+        | some (.obj kvs) => keys kvs == [c!"Config", c!"ServerError"] &&
+            (match lookup kvs c!"Config" with
+             | some v => v.beq (.obj [(c!"description", .str c!"second")])
+             | none => false)
+        | _ => false) = true := by decide
+
+/-! ### which classes of the models file `openapi_bulk` treats as models (`parser_utils.infer`) -/
+
+/-- **Every class with `Base` among its plain-name bases — in ANY position, next to any mixins, plain or dotted — is
+    read as a model** (so `class Invoice(AuditMixin, Base)` gets its schema just like `class Customer(Base)`). -/
+theorem models_with_base_are_discovered (nodes : List SrcNode) (ts : List Table) (h : discover nodes = .ok ts)
+    (bases : List Str) (t : Table) (hn : SrcNode.classDef bases (some t) ∈ nodes) (hb : c!"Base" ∈ bases) : t ∈ ts :=
+  discover_keeps_base_class nodes ts h bases t hn hb
+
+/-- the corner of the round-4 seeded change: mixin first, `Base` second; a dotted mixin has no `id` and is skipped by the
+    test; `object` / no base is not a model; a `Table("t", metadata, …)` call is; other calls are not -/
+example : okAnd (discover [
+      .classDef [c!"object"] none, .classDef [] none,
+      .classDef [c!"Base"] (some ⟨c!"customer", []⟩), .call 1 none none,
+      .classDef [c!"AuditMixin", c!"Base"] (some ⟨c!"invoice", []⟩),
+      .classDef [c!"TimestampMixin", c!"Base"] (some ⟨c!"payment", []⟩),      -- `(mixins.Audit, TimestampMixin, Base)`: the dotted base has no id
+      .call 4 (some c!"metadata") (some ⟨c!"audit_tbl", []⟩), .call 2 (some c!"Integer") none, .call 3 (some c!"Integer") none])
+    (fun ts => ts.map (·.name) == [c!"customer", c!"invoice", c!"payment", c!"audit_tbl"]) = true := by decide
+
+/-- **C16 (a) for `openapi_bulk` from the models FILE, under the key hypothesis:** as `bulk_closed`, with the tables
+    discovered by `infer`: it suffices that every entry's class is a node of the file with `Base` among its plain-name
+    bases and that its table's key is the class name. -/
+theorem bulk_src_closed (app : Str) (nodes : List SrcNode) (es : List Entry) (routes : List RouteFn)
+    (hroutes : ∀ r ∈ routes, ∃ e ∈ es, ∃ a, r ∈ genRoutes a e)
+    (hname : ∀ e ∈ es, '/' ∉ e.name)
+    (hcls : ∀ e ∈ es, ∃ bases t, SrcNode.classDef bases (some t) ∈ nodes ∧ c!"Base" ∈ bases ∧ bulkKey t.name = e.name)
+    (hschema : ∀ n ∈ nodes, ∀ t, n.table? = some t → refsKvs t.schema = [])
+    (doc : J) (h : bulkSrc app nodes routes = .ok doc) : Closed doc := by
+  unfold bulkSrc at h
+  split at h
+  · rename_i ts hts
+    refine bulk_closed app ts es routes hroutes hname ?_ ?_ doc h
+    · intro e he
+      obtain ⟨bases, t, hn, hb, hk⟩ := hcls e he
+      exact ⟨t, discover_keeps_base_class nodes ts hts bases t hn hb, hk⟩
+    · intro t ht
+      obtain ⟨n, hn, hnt⟩ := discover_sub nodes ts hts t ht
+      exact hschema n hn t hnt
+  · cases h
 
 /-! ### `gen_routes` → `openapi_bulk` for any number of models
 
